@@ -115,6 +115,9 @@ def optRex := 0x40000000
 def optEvex := 0x1000
 def virtIdMin := 0x100
 def gpIdCx := 1
+def encPairK := 1
+def encX86Op := 2
+def encMovabs := 3
 def gpIdBx := 3
 def gpIdSp := 4
 def gpIdBp := 5
@@ -171,8 +174,9 @@ structure SigTables where
   isigs : List (Nat × Nat × Nat × List Nat)
   /-- `_op_signature_table`: `_flags` (56 bit), `_reg_mask` (8 bit) -/
   osigs : List (Nat × Nat)
-  /-- ids of the instructions whose `_encoding` is `kEncodingVexRvm_Lx_2xK` (vp2intersectd/q: mask register pair) -/
-  pairK : List Nat
+  /-- `(id, kind)` of the instructions whose `_encoding` matters to `validate`: 1 = `kEncodingVexRvm_Lx_2xK`
+      (vp2intersectd/q: mask register pair), 2 = `kEncodingX86Op` (implicit operands only), 3 = `kEncodingX86Movabs` -/
+  encKinds : List (Nat × Nat)
 
 /-- `op_flag_from_reg_type_table` -/
 def opFlagOfRegType (t : Nat) : Nat :=
@@ -253,7 +257,7 @@ def validAddr16 (btype bid itype iid shift : Nat) : Bool :=
 
 /-- translation of one operand: `Except error (op_flags, reg_mask (32 bit), contribution to combined_reg_mask)`;
     `avx` / `iflags` = the instruction's `_avx512_flags` / `_flags` -/
-def translateOp (mode avx iflags : Nat) : Operand → Except Err (Nat × Nat × Nat)
+def translateOp (mode avx iflags enc : Nat) : Operand → Except Err (Nat × Nat × Nat)
   | .none => .error .invalidState      -- not reached: the loop stops at the first `none`
   | .other => .error .invalidState
   | .label => .ok (fRel8 ||| fRel32, 0, 0)
@@ -326,6 +330,8 @@ def translateOp (mode avx iflags : Nat) : Operand → Except Err (Nat × Nat × 
     match index with
     | .error e => .error e
     | .ok (fl, mask, comb) =>
+      -- (fixes/C13-11) movabs has only the moffs form: no base, no index
+      if enc = encMovabs ∧ (btype ≠ rtNone ∨ itype ≠ rtNone) then .error .invalidAddress else
       -- (fixes/C13-5) 16-bit addressing forms
       if (btype = rtGp16 ∨ itype = rtGp16) ∧ !validAddr16 btype bid itype iid shift then .error .invalidAddress else
       match memSizeFlag memSize with
@@ -364,12 +370,12 @@ termination_by a b => a.length + b.length
 
 /-- what `validate` reads from the tables for one instruction: CommonInfo `_flags`, `_avx512_flags`, its signature rows
     (`_op_count`, `_mode`, `_implicit_op_count`, the `_op_count` operand signatures `(_flags, _reg_mask)` the row's
-    indexes point to) and whether its encoding is `kEncodingVexRvm_Lx_2xK`. Independent of table *positions*. -/
+    indexes point to) and the kind of its `_encoding` (0 = none of those `validate` looks at). Independent of table *positions*. -/
 structure ResolvedInst where
   iflags : Nat
   avx : Nat
   rows : List (Nat × Nat × Nat × List (Nat × Nat))
-  pairK : Bool
+  enc : Nat
   deriving DecidableEq, Repr
 
 /-- `inst_info_by_id(id)`, `common_info.inst_signatures()`, `inst_signature.op_signature(j)`; `none` = `!is_defined_id` -/
@@ -379,7 +385,7 @@ def resolve (T : SigTables) (id : Nat) : Option ResolvedInst :=
   some { iflags := iflags, avx := avx,
          rows := ((T.isigs.drop sigIndex).take sigCount).map fun (opCount, smode, implicitCount, idx) =>
            (opCount, smode, implicitCount, (idx.take opCount).map fun k => T.osigs.getD k (0, 0)),
-         pairK := T.pairK.contains id }
+         enc := ((T.encKinds.find? (·.1 == id)).map (·.2)).getD 0 }
 
 /-- the loop over `common_info.inst_signatures()`: `some true` = matched, otherwise `global_imm_out_of_range` -/
 def matchSignatures (mode : Nat) (ops : List (Nat × Nat)) : List (Nat × Nat × Nat × List (Nat × Nat)) → Bool → Bool × Bool
@@ -404,13 +410,13 @@ def firstNone : List Operand → Nat
   | .none :: _ => 0
   | _ :: r => firstNone r + 1
 
-def translateAll (mode avx iflags : Nat) : List Operand → Except Err (List (Nat × Nat) × Nat × Nat)
+def translateAll (mode avx iflags enc : Nat) : List Operand → Except Err (List (Nat × Nat) × Nat × Nat)
   | [] => .ok ([], 0, 0)
   | o :: r =>
-    match translateOp mode avx iflags o with
+    match translateOp mode avx iflags enc o with
     | .error e => .error e
     | .ok (fl, mask, comb) =>
-      match translateAll mode avx iflags r with
+      match translateAll mode avx iflags enc r with
       | .error e => .error e
       | .ok (sigs, cfl, ccomb) => .ok ((fl % 0x100000000000000, mask % 0x100) :: sigs, cfl ||| fl, ccomb ||| comb)
 
@@ -457,7 +463,7 @@ def validateR (R : ResolvedInst) (inst : Inst) (operands : List Operand) : Err :
   -- operands -> signatures (stops at the first `none`; everything after it must be `none`)
   let n := firstNone operands
   let given := operands.take n
-  match translateAll mode avx iflags given with
+  match translateAll mode avx iflags R.enc given with
   | .error e => e
   | .ok (sigs, combinedFlags, combinedRegMask) =>
   if (operands.drop n).any (· != .none) then .invalidInstruction else
@@ -474,9 +480,11 @@ def validateR (R : ResolvedInst) (inst : Inst) (operands : List Operand) : Err :
     let (m, g) := matchSignatures mode sigs R.rows false
     if m then .ok else if g then .invalidImmediate else .invalidInstruction
   if e4 ≠ .ok then e4 else
+  -- (fixes/C13-11) the X86Op encoding class has implicit operands only: no explicit immediate
+  if R.enc == encX86Op && test combinedFlags fImmMask then .invalidInstruction else
   -- (fixes/C13-7) vp2intersectd|q write an aligned pair of mask registers
   let ePair : Err :=
-    if R.pairK then
+    if R.enc == encPairK then
       match given with
       | .reg _ k0 :: .reg _ k1 :: _ =>
         if k0 < virtIdMin && k1 < virtIdMin && (k0 % 2 != 0 || k0 + 1 != k1) then .invalidPhysId else .ok
@@ -500,6 +508,8 @@ def validateR (R : ResolvedInst) (inst : Inst) (operands : List Operand) : Err :
     if test options kAvx512Options then
       if test iflags ifEvex then
         if test options optZMask && !test avx avxZ then .invalidKZeroUse
+        -- (fix C01-11) zeroing-masking is not defined for a memory destination
+        else if test options optZMask && (match given with | .mem .. :: _ => true | _ => false) then .invalidKZeroUse
         else if test options (optSAE ||| optER) then
           if memOp.isSome then .invalidEROrSAE
           else if test options optER && !test avx avxER then .invalidEROrSAE
@@ -511,6 +521,8 @@ def validateR (R : ResolvedInst) (inst : Inst) (operands : List Operand) : Err :
       else .invalidInstruction
     else .ok
   if e5 ≠ .ok then e5 else
+  -- (fix C01-12) EVEX gather / scatter (VSIB, two operands) need a {k} mask register
+  if test iflags ifVsib && test iflags ifEvex && given.length == 2 && inst.extra.isNone then .invalidKMaskUse else
   -- {extra} register
   match inst.extra with
   | none => .ok
